@@ -710,7 +710,7 @@ TInit == [pc |-> [t |-> <<>>, f |-> <<>>], star |-> TRUE, warned |-> FALSE, regs
 TCache(T, s) == IF s THEN T.pc.t ELSE T.pc.f
 TPut(T, s, cache) == IF s THEN [T EXCEPT !.pc.t = cache] ELSE [T EXCEPT !.pc.f = cache]
 \* returns <<clause, T'>>; clause = "" when the event is what the specification allows
-TraceEvent(T, ev, slack) ==
+TraceEvent(T, ev, mc, slack) ==
   CASE ev.e = "toggle" -> <<"", [T EXCEPT !.star = ~@]>>
     [] ev.e = "reg"    -> <<IF ev.r \in RegNames THEN "" ELSE "unknown_registration", [T EXCEPT !.regs = Append(@, ev.r), !.tc = <<>>]>>
     [] ev.e = "call"   ->
@@ -729,7 +729,7 @@ TraceEvent(T, ev, slack) ==
          LET cache == TCache(T, ev.star) IN
          << IF ev.star # T.star THEN "pc_wrong_dict"
             ELSE IF ev.parse # Parse(ev.segs, ev.star) THEN "pc_set_value"
-            ELSE IF CFind(cache, ev.text) = 0 /\ Len(cache) > MaxCache + slack THEN "pc_overflow"
+            ELSE IF CFind(cache, ev.text) = 0 /\ Len(cache) > mc + slack THEN "pc_overflow"
             ELSE "", TPut(T, ev.star, CSet(cache, CEntry(ev.text, ev.segs, ev.parse, FALSE))) >>
     [] ev.e = "get"    ->
          LET cache == TCache(T, ev.star)  i == CFind(cache, ev.text) IN
@@ -740,12 +740,14 @@ TraceEvent(T, ev, slack) ==
     [] ev.e = "tget"   -> LET i == TFind(T.tc, ev.ty, ev.op) IN
                           <<IF i = 0 THEN "tc_get_missing" ELSE IF T.tc[i].h # ev.h THEN "tc_get_value" ELSE "", T>>
     [] OTHER -> <<"unknown_event", T>>
-RECURSIVE TraceRun(_, _, _, _, _)
-TraceRun(evs, i, T, slack, skipped) ==
-  IF i > Len(evs) THEN [clause |-> "", at |-> 0, skipped |-> skipped]
-  ELSE LET r == TraceEvent(T, evs[i], slack) IN
-       IF r[1] = "skip_unmodelled" THEN TraceRun(evs, i + 1, r[2], slack, skipped + 1)
-       ELSE IF r[1] # "" THEN [clause |-> r[1], at |-> i, skipped |-> skipped]
-       ELSE TraceRun(evs, i + 1, r[2], slack, skipped)
-TraceVerdict(row, slack) == TraceRun(row.events, 1, TInit, slack, 0)
+\* row = [events, maxcache (Path._MAX_CACHE of the session), slack (threads - 1: stores that may
+\* overshoot the bound because check and store are separate steps)]
+RECURSIVE TraceRun(_, _, _, _, _, _)
+TraceRun(evs, i, T, mc, slack, skipped) ==
+  IF i > Len(evs) THEN [clause |-> IF skipped > 0 THEN "skipped" ELSE "", at |-> skipped]
+  ELSE LET r == TraceEvent(T, evs[i], mc, slack) IN
+       IF r[1] = "skip_unmodelled" THEN TraceRun(evs, i + 1, r[2], mc, slack, skipped + 1)
+       ELSE IF r[1] # "" THEN [clause |-> r[1], at |-> i]
+       ELSE TraceRun(evs, i + 1, r[2], mc, slack, skipped)
+TraceVerdict(row) == TraceRun(row.events, 1, TInit, row.maxcache, row.slack, 0)
 ====================================================================================
